@@ -162,7 +162,7 @@ def main():
                 # an unregistered MementoFunction around the same plain function
                 from twosigma.memento.memento import MementoFunction
                 base = lookup(act[2])
-                objs[act[1]] = MementoFunction(fn=base.fn, cluster_name="vp", register_fn=False)
+                objs[act[1]] = MementoFunction(fn=base.fn, cluster_name="vp", version=base.explicit_version, register_fn=False)
                 out.append("ok")
             elif k == "lock":
                 m.Environment.get().get_cluster("vp").locked = bool(act[1])
